@@ -23,6 +23,7 @@ import (
 	"github.com/bluenviron/gortsplib/v5/pkg/base"
 	"github.com/bluenviron/gortsplib/v5/pkg/description"
 	"github.com/bluenviron/gortsplib/v5/pkg/format"
+	"github.com/bluenviron/gortsplib/v5/pkg/auth"
 	"github.com/pion/rtcp"
 	"github.com/pion/rtp"
 )
@@ -323,6 +324,7 @@ type WorldCfg struct {
 	IdleTimeout    time.Duration
 	WriteQueueSize int
 	MaxPacketSize  int
+	AuthMethods    []auth.VerifyMethod
 	IP             string // listen IP, default 127.0.0.1
 	ListenPacket   func(network, address string) (net.PacketConn, error)
 	Listen         func(network, address string) (net.Listener, error)
@@ -382,6 +384,7 @@ func StartWorld(cfg WorldCfg) (*World, error) {
 			IdleTimeout:              cfg.IdleTimeout,
 			WriteQueueSize:           cfg.WriteQueueSize,
 			MaxPacketSize:            cfg.MaxPacketSize,
+			AuthMethods:              cfg.AuthMethods,
 			ListenPacket:             cfg.ListenPacket,
 			Listen:                   cfg.Listen,
 			DisableRTCPSenderReports: cfg.NoSenderReport,
